@@ -78,11 +78,15 @@ var families = []family{
 	{"fetch-literal", "fetch", "", func(n int) string { return "* 1 FETCH (BODY[] {" + strconv.Itoa(n) + "}\r\n" + rep("x", n) + ")\r\n" }, sizes},
 	{"flags-n", "unsol", "", func(n int) string { return "* FLAGS (" + strings.TrimSpace(rep("kw ", n)) + ")\r\n" }, []int{1000, 4000, 16000, 64000}},
 	{"capability-n", "capability", "", func(n int) string { return "* CAPABILITY" + rep(" X", n) + "\r\n" }, []int{1000, 4000, 16000, 64000}},
-	{"quoted-n", "fetch", "", func(n int) string { return `* 1 FETCH (ENVELOPE (NIL "` + rep("s", n) + `" NIL NIL NIL NIL NIL NIL NIL NIL))` + "\r\n" }, sizes},
+	{"quoted-n", "fetch", "", func(n int) string {
+		return `* 1 FETCH (ENVELOPE (NIL "` + rep("s", n) + `" NIL NIL NIL NIL NIL NIL NIL NIL))` + "\r\n"
+	}, sizes},
 	// sets: the input grows by one digit while the range grows 4x
 	{"esearch-range", "uidesearch", "enum", func(n int) string { return `* ESEARCH (TAG "T1") UID ALL 1:` + strconv.Itoa(n) + "\r\n" }, sizes},
 	{"esearch-range-noenum", "uidesearch", "", func(n int) string { return `* ESEARCH (TAG "T1") UID ALL 1:` + strconv.Itoa(n) + "\r\n" }, sizes},
-	{"copyuid-range", "copy", "enum", func(n int) string { return "T2 OK [COPYUID 1 1:" + strconv.Itoa(n) + " 1:" + strconv.Itoa(n) + "] done\r\n" }, sizes},
+	{"copyuid-range", "copy", "enum", func(n int) string {
+		return "T2 OK [COPYUID 1 1:" + strconv.Itoa(n) + " 1:" + strconv.Itoa(n) + "] done\r\n"
+	}, sizes},
 }
 
 func resourceCases() []Case {
